@@ -321,9 +321,12 @@ def run(ctx):
     extra_states = []
     for t in ("Q", "L", "D"):
         extra_states += [[["a", t]], [["a", t], ["b", 1]], [["a", 1], ["a", t]]]
+    # containers larger than any plausible fast-path threshold, keys repeating with other keys in between
+    for n in (17, 33, 70):
+        extra_states.append([[("a", "b", "c")[i % 3], 1 if i % 5 else "G"] for i in range(n)])
     for cls in C.CLASSES:
         for pairs in extra_states:
-            specs.append((cls, pairs, mut_len, nested_len))
+            specs.append((cls, pairs, 1, 1))
     for cls in C.CLASSES:
         for pairs in states(n_max, vals):
             specs.append((cls, pairs, mut_len, nested_len))
@@ -338,7 +341,7 @@ def run(ctx):
         "states": acc.states,
         "transitions": acc.transitions,
         "traces_validated_against_impl": acc.transitions,
-        "rule": "states = (class in 4, list of <= %d pairs over keys {a,b} x values %r, builder history "
+        "rule": "states = (class in 4, lists of 17 / 33 / 70 pairs with interleaved repeated keys, hand-built values, list of <= %d pairs over keys {a,b} x values %r, builder history "
                 "in %r); transitions = copy mechanism in %r followed by every top-level mutation "
                 "sequence of length <= %d (menu of %d operations) on the copy / on the original, and "
                 "for deep copies and pickles every nested-level sequence of length <= %d; non-trivial "
